@@ -333,6 +333,10 @@ class FunctionVC(Executor):
         for m in contract.get("modifies", []):
             mv = self.with_old(bound, pre_heap, lambda: self.ev1(parse_clause(m), cs))
             k = strip_opt(mv.ty)[0]
+            if k not in ("dict", "set", "seq"):
+                # an object named in `modifies` (a constructor's `self`): its fields are attribute functions / field arrays,
+                # not container components; nothing to forget for a callee-constructed object
+                continue
             for comp in {"dict": ("dh", "dv", "dn"), "set": ("sh", "sn"), "seq": ("sl", "sa")}.get(k, ()):
                 post.heap = post.heap.havoc_ref(comp, mv.t)
             post.assume(*smt.heap_wellformed_ref(post.heap, mv.t, {"dict": "d", "set": "s", "seq": "q"}[k]))
